@@ -221,22 +221,12 @@ Definition supers_ready (w : world) (supers : list nat) : bool :=
   forallb (fun s => match lookup (reg w) s with Some id => readyb w id | None => false end) supers.
 Fixpoint nodupb (l : list nat) : bool :=
   match l with [] => true | x :: r => negb (memb x r) && nodupb r end.
-(* classChanged merges a class only when each of its direct supers is registered and ready and is either
-   not to be merged itself or has been merged before *)
-Fixpoint topo_ok (w : world) (n : nat) (done corder : list nat) : bool :=
-  match corder with
-  | [] => true
-  | id :: r =>
-      (if inherits w id n then
-         match get w id with
-         | None => false
-         | Some c => forallb (fun d => match lookup (reg w) d with
-                                       | None => false
-                                       | Some did => readyb w did && (negb (inherits w did n) || memb did done)
-                                       end) (co_supers c)
-         end
-       else true) && topo_ok w n (id :: done) r
-  end.
+(* every class that classChanged merges again has each of its direct supers registered and ready (the new
+   definition of n included) *)
+Definition stale_supers_ready (w : world) (n : nat) (corder : list nat) : bool :=
+  forallb (fun id => if inherits w id n then
+                       match get w id with Some c => supers_ready w (co_supers c) | None => false end
+                     else true) corder.
 Definition cache_keys (w : world) : list nat := flat_map (fun kg => map fst (g_cache (snd kg))) (gfs w).
 
 Definition g_defclass (w : world) (n : nat) (supers : list nat) (slots : list slotdef) (rorder corder : list nat) : bool :=
@@ -256,8 +246,8 @@ Definition g_defclass (w : world) (n : nat) (supers : list nat) (slots : list sl
            let bad := n :: flat_map (fun id => match name_of w id with Some m => [m] | None => [] end) subs in
            (* no superclass of the new definition inherits the class being redefined *)
            forallb (fun d => negb (memb d bad)) supers
-           (* superclasses (the new definition of n included) are ready, and merged again before their subclasses *)
-           && topo_ok pre n [] corder
+           (* the superclasses of the classes merged again (the new definition of n included) are ready *)
+           && stale_supers_ready pre n corder
            (* no generic has cached a dispatch for the class or an inheriting class *)
            && forallb (fun k => negb (memb k bad)) (cache_keys w)
          else true
